@@ -1,0 +1,12 @@
+//go:build verif
+
+// Contracts for contract-based verification (/verif). Comment-only: with or without the
+// build tag "verif" this file adds nothing to the compiled package.
+
+package directinvoke
+
+//@ modset directSend = httpOut, all(interop.Reset.InvokeResponseMetrics), all(interop.Reset.InvokeResponseMode), all(interop.InvokeResponseMetrics.RuntimeCalledResponse)
+
+// frame of the direct-invoke reply path: the ResponseWriter model, the reset message it completes and the metrics record
+//@ func SendDirectInvokeResponse
+//@   modifies directSend
